@@ -1784,6 +1784,14 @@ class _MapUnbound(ast.NodeTransformer):
                 isinstance(n.args[1], ast.Constant) and isinstance(n.args[1].value, int) and n.args[1].value >= 0 and \
                 isinstance(n.args[2], ast.Constant) and n.args[2].value is None:
             return ast.copy_location(ast.Subscript(value=n.args[0], slice=ast.Slice(lower=n.args[1], upper=None, step=None), ctx=ast.Load()), n)
+        if isinstance(n.func, ast.Name) and n.func.id == "map" and len(n.args) == 2 and not n.keywords and isinstance(n.args[0], ast.Name) and \
+                n.args[0].id in getattr(self, "partial_names", ()):
+            # map(g, X) with g = partial(F, ..) bound in this function: (g(v) for v in X) — the partial is then expanded at the call
+            _MapUnbound.n_ += 1
+            v = f"__m{_MapUnbound.n_}"
+            elt = ast.Call(func=ast.Name(id=n.args[0].id, ctx=ast.Load()), args=[ast.Name(id=v, ctx=ast.Load())], keywords=[])
+            g = ast.GeneratorExp(elt=elt, generators=[ast.comprehension(target=ast.Name(id=v, ctx=ast.Store()), iter=n.args[1], ifs=[], is_async=0)])
+            return ast.fix_missing_locations(ast.copy_location(g, n))
         if isinstance(n.func, ast.Name) and n.func.id == "map" and len(n.args) == 2 and not n.keywords and isinstance(n.args[0], ast.Attribute) and \
                 isinstance(n.args[0].value, ast.Name) and n.args[0].value.id in ("str", "bytes") and not n.args[0].attr.startswith("_"):
             _MapUnbound.n_ += 1
@@ -2321,7 +2329,10 @@ def normalise(M, fn, subst: bool = False, guards: bool = False, keep=(), comps: 
             changed.append("zip-displays")
         if not changed:
             break
-    node = _MapUnbound().visit(node)
+    mu_ = _MapUnbound()
+    mu_.partial_names = {st.targets[0].id for st in ast.walk(node) if isinstance(st, ast.Assign) and len(st.targets) == 1 and isinstance(st.targets[0], ast.Name) and
+                         isinstance(st.value, ast.Call) and ast.unparse(st.value.func) in ("partial", "functools.partial")}
+    node = mu_.visit(node)
     _copy_takes_param_name(node)
     for _ in range(3):
         if not _bool_buckets(node):
